@@ -10,6 +10,7 @@ RULE = ("case = grid (nelx,nely,nelz; nelz=0 means 2D), element sizes, dofs per 
         "sizes; Hypothesis adds sizes/ndof/points. Non-trivial = all of nelx,nely(,nelz) > 1 and pairwise different "
         "(a transposed stride is then visible). Distinct = sha1 of the canonical case JSON.")
 EXHAUSTIVE_NOTE = "grid sizes: quick 2D 1..7 x 1..7 and 3D 1..4^3; thorough 2D 1..12^2 and 3D 1..6^3 (unit sizes, ndof=2)"
+FUZZ = {"quick": 0, "thorough": 3000, "instrument": "pymoto.common.domain"}
 ASSUMPTIONS = ["1-D domains (nely=0) are outside the property's quantifier (2D and 3D) and are not generated",
                "documented local node order: local node l sits at corner (a,b,c) = bits (1,2,4) of l"]
 
